@@ -50,22 +50,131 @@ fn opq_find_nl(data: &Vec<u8>, pos: usize) -> (r: Option<usize>)
         r is Some ==> pos + r.unwrap() < data@.len() && data@[pos + r.unwrap()] == 0x0a && forall|q: int| pos <= q < pos + r.unwrap() ==> (#[trigger] data@[q]) != 0x0a,
 { unimplemented!() }
 
-//#item file=src/authorship/rebase_authorship.rs kind=region name=tp_scan in=tracked_paths_match_for_commit_pairs from="let mut pos = 0usize;" to="$block_end" from_nth=0 to_nth=0 opaque='[{"expr": "data[pos..].iter().position(|&b| b == b\u0027\\n\u0027)", "call": "opq_find_nl(&data, pos)"}]'
-//@ fn region_tp_scan(data: Vec<u8>, commit_pairs: &[(String, String)], Ghost(secs): Ghost<Seq<(Seq<u8>, Seq<u8>)>>) -> (r_: Result<bool, GitAiError>)
-//@     requires secs.len() == commit_pairs@.len(), git_format(data@, secs),
+// the commit-metadata table and git, as seen by the region
+//#item file=src/authorship/rebase_authorship.rs kind=struct name=CommitObjectMetadata
+struct CommitObjectMetadata {
+    tree_oid: String,
+    first_parent: Option<String>,
+}
+//#end
+/// stand-in for HashMap<String, CommitObjectMetadata> (what load_commit_metadata_batch returned); `meta_of` is its lookup
+#[verifier::external_body]
+pub struct MetaMap { _o: () }
+uninterp spec fn meta_of(m: MetaMap, k: Seq<char>) -> Option<CommitObjectMetadata>;
+#[verifier::external_body]
+fn opq_meta_get<'a>(m: &'a MetaMap, k: &String) -> (r: Option<&'a CommitObjectMetadata>)
+    ensures r is Some <==> meta_of(*m, k@) is Some, r is Some ==> *r->Some_0 == meta_of(*m, k@)->Some_0,
+{ unimplemented!() }
+/// stand-in for std::process::Output (only stdout is read)
+pub struct Output { pub stdout: Vec<u8> }
+pub open spec fn sb(s: String) -> Seq<u8> { encode_utf8(s@) }
+#[verifier::external_body]
+fn opq_new_string() -> (r: String)
+    ensures sb(r) == Seq::<u8>::empty(),
+{ unimplemented!() }
+#[verifier::external_body]
+fn opq_push_str(s: &mut String, x: &str)
+    ensures sb(*final(s)) == sb(*old(s)) + x.spec_bytes(),
+{ unimplemented!() }
+#[verifier::external_body]
+fn opq_push_byte(s: &mut String, c: char)
+    requires (c as u32) < 128,
+    ensures sb(*final(s)) == sb(*old(s)).push(c as u8),
+{ unimplemented!() }
+/// the tree of a commit as the region reads it: known only when the table has the commit with a non-empty tree id
+spec fn tree_of(m: MetaMap, c: Seq<char>) -> Option<Seq<u8>> {
+    match meta_of(m, c) { Some(meta) => if meta.tree_oid@.len() > 0 { Some(sb(meta.tree_oid)) } else { None }, None => None }
+}
+/// what the region must feed git: one line `<left tree> <right tree>` per pair, in order
+pub open spec fn stdin_of(trees: Seq<(Seq<u8>, Seq<u8>)>, n: int) -> Seq<u8>
+    decreases n
+{
+    if n <= 0 { Seq::<u8>::empty() } else { stdin_of(trees, n - 1) + trees[n - 1].0 + seq![0x20u8] + trees[n - 1].1 + seq![0x0au8] }
+}
+/// ASSUMED about git: for the pair (left tree, right tree) `diff-tree --stdin` echoes a header line and prints the raw records
+/// of the tracked paths that differ (uninterpreted; empty exactly when the trees agree on those paths)
+pub uninterp spec fn git_header(lt: Seq<u8>, rt: Seq<u8>) -> Seq<u8>;
+pub uninterp spec fn git_delta(lt: Seq<u8>, rt: Seq<u8>) -> Seq<u8>;
+pub open spec fn secs_of(trees: Seq<(Seq<u8>, Seq<u8>)>) -> Seq<(Seq<u8>, Seq<u8>)> {
+    Seq::new(trees.len(), |k: int| (git_header(trees[k].0, trees[k].1), git_delta(trees[k].0, trees[k].1)))
+}
+proof fn lemma_stdin_prefix(a: Seq<(Seq<u8>, Seq<u8>)>, b: Seq<(Seq<u8>, Seq<u8>)>, n: int)
+    requires 0 <= n <= a.len(), n <= b.len(), forall|i: int| 0 <= i < n ==> a[i] == b[i],
+    ensures stdin_of(a, n) == stdin_of(b, n),
+    decreases n
+{
+    if n > 0 { lemma_stdin_prefix(a, b, n - 1); }
+}
+/// O1 stub for `exec_git_stdin(&args, stdin_lines.as_bytes())`: the PRECONDITION is what the region must establish (git is fed
+/// exactly the tree pairs, one per line, in order); the postcondition is the assumed output shape for those pairs
+#[verifier::external_body]
+fn opq_exec_git_stdin(args: &Vec<String>, stdin: &String, Ghost(trees): Ghost<Seq<(Seq<u8>, Seq<u8>)>>) -> (r: Result<Output, GitAiError>)
+    requires sb(*stdin) == stdin_of(trees, trees.len() as int),
+    ensures r is Ok ==> git_format(r->Ok_0.stdout@, secs_of(trees)),
+{ unimplemented!() }
+/// every pair's trees are known
+spec fn trees_known(m: MetaMap, pairs: Seq<(String, String)>, n: int) -> bool {
+    forall|k: int| 0 <= k < n ==> tree_of(m, (#[trigger] pairs[k]).0@) is Some && tree_of(m, pairs[k].1@) is Some
+}
+spec fn pair_delta(m: MetaMap, p: (String, String)) -> Seq<u8> { git_delta(tree_of(m, p.0@)->Some_0, tree_of(m, p.1@)->Some_0) }
+
+//#item file=src/authorship/rebase_authorship.rs kind=region name=tp_all in=tracked_paths_match_for_commit_pairs from="let mut stdin_lines = String::new();" to="$block_end" from_nth=0 to_nth=0 opaque='[{"expr": "data[pos..].iter().position(|&b| b == b\u0027\\n\u0027)", "call": "opq_find_nl(&data, pos)"}, {"expr": "String::new()", "call": "opq_new_string()"}, {"expr": "commit_metadata.get(left_commit)", "call": "opq_meta_get(&commit_metadata, left_commit)"}, {"expr": "commit_metadata.get(right_commit)", "call": "opq_meta_get(&commit_metadata, right_commit)"}, {"expr": "stdin_lines.push_str(left_tree)", "call": "opq_push_str(&mut stdin_lines, left_tree)"}, {"expr": "stdin_lines.push(\u0027 \u0027)", "call": "opq_push_byte(&mut stdin_lines, \u0027 \u0027)"}, {"expr": "stdin_lines.push_str(right_tree)", "call": "opq_push_str(&mut stdin_lines, right_tree)"}, {"expr": "stdin_lines.push(\u0027\\n\u0027)", "call": "opq_push_byte(&mut stdin_lines, \u0027\\n\u0027)"}, {"expr": "exec_git_stdin(&args, stdin_lines.as_bytes())", "call": "opq_exec_git_stdin(&args, &stdin_lines, Ghost(trees))"}]'
+//@ fn region_tp_all(commit_pairs: &[(String, String)], commit_metadata: MetaMap, args: Vec<String>) -> (r_: Result<bool, GitAiError>)
 //@     ensures
-//@         // for EVERY number of pairs: the shortcut's precondition holds exactly when no pair has a delta
-//@         r_ is Ok, r_->Ok_0 == no_delta(secs, secs.len() as int),
+//@         // the shortcut's precondition: Ok(true) EXACTLY when every commit of every pair has a known tree and git reports no
+//@         // delta on the tracked paths for ANY pair (each pair compared as left tree vs right tree, in order); a missing tree
+//@         // declines; only a failing git call errs
+//@         r_ is Ok ==> r_->Ok_0 == (trees_known(commit_metadata, commit_pairs@, commit_pairs@.len() as int)
+//@             && forall|k: int| 0 <= k < commit_pairs@.len() ==> (#[trigger] pair_delta(commit_metadata, commit_pairs@[k])).len() == 0),
+//@         r_ is Err ==> trees_known(commit_metadata, commit_pairs@, commit_pairs@.len() as int),
 //@ {
-//@     let ghost n = secs.len() as int;
-//@     proof { lemma_off_le(secs, 0, n); }
-    let mut pos = 0usize;
-    for _ in it_0: commit_pairs
+//@     let ghost pairs = commit_pairs@;
+//@     let ghost mut trees: Seq<(Seq<u8>, Seq<u8>)> = Seq::empty();
+    let mut stdin_lines = opq_new_string();
+    for (left_commit, right_commit) in it_0: commit_pairs
     //@     invariant
-    //@         n == secs.len(), n == commit_pairs@.len(), git_format(data@, secs),
-    //@         pos == off(secs, it_0.index@), pos <= data@.len(), no_delta(secs, it_0.index@),
+    //@         pairs == commit_pairs@, trees.len() == it_0.index@, trees_known(commit_metadata, pairs, it_0.index@),
+    //@         forall|j: int| 0 <= j < trees.len() ==> (#[trigger] trees[j]).0 == tree_of(commit_metadata, pairs[j].0@)->Some_0 && trees[j].1 == tree_of(commit_metadata, pairs[j].1@)->Some_0,
+    //@         sb(stdin_lines) == stdin_of(trees, trees.len() as int),
     {
         //@ let ghost k = it_0.index@;
+        //@ proof { assert(*left_commit == pairs[k].0 && *right_commit == pairs[k].1); }
+        let left_tree = match opq_meta_get(&commit_metadata, left_commit) {
+            Some(meta) if !meta.tree_oid.is_empty() => meta.tree_oid.as_str(),
+            _ => return Ok(false),
+        };
+        let right_tree = match opq_meta_get(&commit_metadata, right_commit) {
+            Some(meta) if !meta.tree_oid.is_empty() => meta.tree_oid.as_str(),
+            _ => return Ok(false),
+        };
+        //@ let ghost t0 = trees;
+        //@ proof { trees = trees.push((left_tree.spec_bytes(), right_tree.spec_bytes())); }
+        opq_push_str(&mut stdin_lines, left_tree);
+        opq_push_byte(&mut stdin_lines, ' ');
+        opq_push_str(&mut stdin_lines, right_tree);
+        opq_push_byte(&mut stdin_lines, '\n');
+        //@ proof {
+        //@     assert(trees.drop_last() =~= t0);
+        //@     lemma_stdin_prefix(trees, t0, t0.len() as int);
+        //@     assert(sb(stdin_lines) =~= stdin_of(trees, trees.len() as int));
+        //@ }
+    }
+
+    let output = opq_exec_git_stdin(&args, &stdin_lines, Ghost(trees))?;
+    let data = output.stdout;
+    //@ let ghost secs = secs_of(trees);
+    //@ let ghost n = secs.len() as int;
+    //@ proof { lemma_off_le(secs, 0, n); }
+
+    let mut pos = 0usize;
+    for _ in it_1: commit_pairs
+    //@     invariant
+    //@         n == secs.len(), n == commit_pairs@.len(), git_format(data@, secs),
+    //@         pairs == commit_pairs@, secs == secs_of(trees), trees.len() == n, trees_known(commit_metadata, pairs, n),
+    //@         forall|j: int| 0 <= j < trees.len() ==> (#[trigger] trees[j]).0 == tree_of(commit_metadata, pairs[j].0@)->Some_0 && trees[j].1 == tree_of(commit_metadata, pairs[j].1@)->Some_0,
+    //@         pos == off(secs, it_1.index@), pos <= data@.len(), no_delta(secs, it_1.index@),
+    {
+        //@ let ghost k = it_1.index@;
         //@ let ghost h = secs[k].0; let ghost d = secs[k].1;
         //@ proof {
         //@     assert(sec_ok(data@, secs, k)); lemma_off_le(secs, k + 1, n);
@@ -91,7 +200,7 @@ fn opq_find_nl(data: &Vec<u8>, pos: usize) -> (r: Option<usize>)
 
         // Any delta line means tracked path blobs differ for this pair.
         if pos < data.len() && data[pos] == b':' {
-            //@ proof { assert(secs[k].1.len() != 0); }
+            //@ proof { assert(secs[k].1.len() != 0); assert(secs[k].1 == git_delta(trees[k].0, trees[k].1)); assert(pair_delta(commit_metadata, pairs[k]).len() != 0); }
             return Ok(false);
         }
 
@@ -124,6 +233,7 @@ fn opq_find_nl(data: &Vec<u8>, pos: usize) -> (r: Option<usize>)
         }
     }
 
+    //@ proof { assert forall|k: int| 0 <= k < n implies (#[trigger] pair_delta(commit_metadata, pairs[k])).len() == 0 by { assert(secs[k].1.len() == 0); assert(secs[k].1 == git_delta(trees[k].0, trees[k].1)); } }
     Ok(true)
 //@ }
 //#end
